@@ -273,7 +273,10 @@ class Composition(Loggable):
                 joined = " >> ".join(
                     [
                         f"({'*' if delayed else ''}{t or '-'}) {c.name}"
-                        for c, (t, delayed) in reversed(chain.items())
+                        for c, (t, delayed) in (
+                            (c, lag or (None, False))
+                            for c, lag in reversed(chain.items())
+                        )
                     ]
                 )
                 raise FinamCircularCouplingError(
